@@ -153,6 +153,7 @@ func runRulesGen(c *Check, g genCfg) int64 {
 	}
 	c.AddTLC(res)
 	c.AddTraces(total)
+	fmt.Printf("  %s %s: %d behaviours generated and replayed, %d states, %.1fs\n", c.Prop, g.Label, total, res.Distinct, res.Wall.Seconds())
 	if total == 0 {
 		machineryFail("RulesGen (%s) produced no behaviours", g.Label)
 	}
@@ -162,11 +163,12 @@ func runRulesGen(c *Check, g genCfg) int64 {
 type rulesReplayer struct {
 	rec   *Recorder
 	rules *rules.RulesEventReceiver
+	vb    *volatileBuf
 }
 
 func newRulesReplayer(l Lim) *rulesReplayer {
 	rec := &Recorder{}
-	return &rulesReplayer{rec: rec, rules: rules.NewRules(rec, l.Config())}
+	return &rulesReplayer{rec: rec, rules: rules.NewRules(rec, l.Config()), vb: &volatileBuf{}}
 }
 
 func replayLeaf(c *Check, g genCfg, t *genTable, rp *rulesReplayer, lf genLeaf) {
@@ -199,7 +201,7 @@ func replayLeaf(c *Check, g genCfg, t *genTable, rp *rulesReplayer, lf genLeaf) 
 	for j, e := range evs {
 		last := j == len(evs)-1
 		expectOK := !last || lf.St != "rejected"
-		ok, perr := tryInvoke(rp.rules, e)
+		ok, perr := tryInvokeV(rp.rules, e, rp.vb)
 		got := rp.rec.Take()
 		stepNo := j - np + 1 // 1-based index within explored part
 		if ok != expectOK {
